@@ -24,6 +24,9 @@ FORMAT_COMPRESSIONS = {
 # shard-level metadata values are nested on purpose (a list inside the dict): a writer that keeps a shallow copy of
 # the caller's object would still alias the inner list
 MD = {"None": None, "A": {"k": ["A"]}, "B": {"k": ["B"]}}
+# flat values for the checks of the per-metadata limit, which is documented as best effort ("hashed as a tuple of sorted
+# items") and raises TypeError for unhashable (nested) values
+MD_FLAT = {"None": None, "A": {"k": "A"}, "B": {"k": "B"}}
 EXT = (".fb", ".npz", ".tfrec")
 
 
@@ -386,13 +389,14 @@ class Replayer:
     """Executes labels of Dataset.tla behaviours against a real dataset directory."""
 
     def __init__(self, root: Path, fmt: str, compression: str = "", eps: int = 2, hashes=("sha256",),
-                 writer_names=("u1", "u2", "u3", "u4", "u5", "u6"), single_process: bool = True):
+                 writer_names=("u1", "u2", "u3", "u4", "u5", "u6"), single_process: bool = True, md_table=None):
         self.root = Path(root)
         self.fmt = fmt
         self.compression = compression
         self.eps = eps
         self.hashes = tuple(hashes)
         self.single_process = single_process
+        self.md_table = md_table if md_table is not None else MD
         self.proj = Projector(fmt, compression, self.hashes)
         self.ds = None
         self.filler = None
@@ -462,7 +466,7 @@ class Replayer:
     def _md_arg(self, md):
         if md == "REF":
             return self.caller_md
-        return MD[md]
+        return self.md_table[md]
 
     def write(self, p, split, md, kind):
         i = self.next_ex
